@@ -640,36 +640,64 @@ Definition C01d_case (c : dcfg) (rs : list round_obs) (initial final : list json
       match target_of c k0 with
       | None => None
       | Some t =>
+          (* (c) what is not ours is byte for byte what it was (judged first: it does not depend on quiescence) *)
+          match first_some (fun o =>
+                  if same_object o t || ours_d c t o then None else
+                  match find (same_object o) final with
+                  | Some o' => if jeqb o o' && jeqb o' o then None else Some "foreign-object-touched"
+                  | None => Some "foreign-object-touched"
+                  end) initial with
+          | Some w => Some w
+          | None =>
           (* (a) a sync that sends no write is reached within the bound *)
           match drop_until_quiet rs with
           | None => Some "no-quiescence"
           | Some further =>
               (* (d) the further sync sends nothing either *)
               if negb (forallb quiet_round further) then Some "hot-loop" else
-              (* (c) what is not ours is byte for byte what it was *)
-              match first_some (fun o =>
-                      if same_object o t || ours_d c t o then None else
-                      match find (same_object o) final with
-                      | Some o' => if jeqb o o' && jeqb o' o then None else Some "foreign-object-touched"
-                      | None => Some "foreign-object-touched"
-                      end) initial with
-              | Some w => Some w
-              | None =>
-                  (* (b) ours in the final store = the desired attachments of the last answer *)
-                  match last_opt rs with
-                  | Some (_, evs, _) =>
-                      match round_desired_d c evs with
-                      | Some (sent, r, ds) =>
-                          let desired := flat_map (fun d => match d with Some o => [o] | None => [] end) ds in
-                          let mine := filter (fun o => ours_d c t o && negb (same_object o t)) final in
-                          if negb (forallb (fun d => existsb (fun o => realises_d c o d) mine) desired) ||
-                             negb (forallb (fun o => is_deleting o || existsb (fun d => desired_key_matches c o d) desired) mine)
-                          then Some "final-attachments-differ" else None
-                      | None => None
-                      end
+              (* (b) ours in the final store = the desired attachments of the last answer *)
+              match last_opt rs with
+              | Some (_, evs, _) =>
+                  match round_desired_d c evs with
+                  | Some (sent, r, ds) =>
+                      let desired := flat_map (fun d => match d with Some o => [o] | None => [] end) ds in
+                      let mine := filter (fun o => ours_d c t o && negb (same_object o t)) final in
+                      if negb (forallb (fun d => existsb (fun o => realises_d c o d) mine) desired) ||
+                         negb (forallb (fun o => is_deleting o || existsb (fun d => desired_key_matches c o d) desired) mine)
+                      then Some "final-attachments-differ" else None
                   | None => None
                   end
+              | None => None
               end
           end
+          end
       end
+  end.
+
+(* ================= C16: a failed write of the target is tried again ================= *)
+(* scenarios flagged "failed-write-then-retry": nobody else touches the store. Round i: the answer named a
+   change (against the target as cached BEFORE that sync), a write to the target failed hard and none was
+   accepted; round i+1: the same answer, success: then the write is sent again (a sync must not have left
+   the change behind in its cache) *)
+Definition same_maps (a b : dresp) : bool :=
+  jeqb (JObj (map (fun kv => (fst kv, match snd kv with Some v => JStr v | None => JNull end)) (dr_labels a)))
+       (JObj (map (fun kv => (fst kv, match snd kv with Some v => JStr v | None => JNull end)) (dr_labels b))) &&
+  jeqb (JObj (map (fun kv => (fst kv, match snd kv with Some v => JStr v | None => JNull end)) (dr_annotations a)))
+       (JObj (map (fun kv => (fst kv, match snd kv with Some v => JStr v | None => JNull end)) (dr_annotations b))).
+
+Fixpoint C16_retry_rounds (c : dcfg) (rs : list round_obs) : option string :=
+  match rs with
+  | (k1, evs1, _) :: (((_, evs2, res2) :: _) as rest) =>
+      let here :=
+        match target_of c k1, round_hook_d evs1, round_hook_d evs2, res2 with
+        | Some t, Some (_, _, a1), Some (_, _, a2), SDone =>
+            if maps_ask_change t a1 && same_maps a1 a2 &&
+               existsb (fun e => is_target_write c t e && hard_failure e) (after_hook evs1) &&
+               negb (existsb (fun e => is_target_write c t e && accepted e) evs1) &&
+               negb (existsb (is_target_write c t) (after_hook evs2))
+            then Some "failed-write-not-retried" else None
+        | _, _, _, _ => None
+        end in
+      match here with Some w => Some w | None => C16_retry_rounds c rest end
+  | _ => None
   end.
